@@ -94,6 +94,32 @@ def result_switches(b, sym, facts, wbb):
     return out
 
 
+def _count_result_layers(ty):
+    ty = ty.strip()
+    if ty.startswith("std::task::Poll<"):
+        ty = ty[len("std::task::Poll<"):-1]
+    n = 0
+    while ty.startswith("std::result::Result<"):
+        n += 1
+        ty = ty[len("std::result::Result<"):]
+    return n
+
+
+def result_layers(b, sym, wbb, wterm):
+    """How many nested Result layers the (awaited) value of write primitive `wterm` has."""
+    dty = b.local_ty(wterm["dest"]["l"]) if not wterm["dest"]["p"] else ""
+    n = _count_result_layers(dty)
+    if n:
+        return n
+    # async: the call builds a future; look at the poll whose receiver mentions it
+    best = 0
+    for i, t in b.calls():
+        if t["callee"]["name"] == "poll" or "{closure#0}" in t["callee"]["path"]:
+            if t["args"] and mentions(sym.op(t["args"][0]), wbb) and not t["dest"]["p"]:
+                best = max(best, _count_result_layers(b.local_ty(t["dest"]["l"])))
+    return max(best, 1)
+
+
 def analyse_conn(facts, R, path, role, is_async):
     b = facts.body(path)
     fn = b.path
@@ -110,6 +136,11 @@ def analyse_conn(facts, R, path, role, is_async):
                   "the result of `%s` (and of any timeout around it) is never tested: after a failed or timed-out write, possibly "
                   "mid-frame, the connection loop carries on and writes further frames" % nm, t.get("span"))
             continue
+        layers = result_layers(b, sym, i, t)
+        distinct = {render(sym.op(b.term(s)["on"])) for s, _, _ in sw}
+        R.check(len(distinct) >= layers, "no-write-after-failed-write", fn, what + "/all-result-layers-tested",
+                "`%s` yields %d nested Result layer(s) (e.g. timeout(..) around the write) but only %d is/are tested: an inner write error "
+                "is dropped and the loop carries on" % (nm, layers, len(distinct)), t.get("span"), "%d layer(s), %d tested" % (layers, len(distinct)))
         for (s, succ_t, fail_t) in sw:
             # events: entering a success arm; the arm blocks have the switch as their only predecessor in built MIR
             evs = [(x, 0) for x in succ_t]
